@@ -70,12 +70,18 @@ UnMap(a, coarse) ==
 Clear ==
   /\ ops < MaxOps /\ ops' = ops + 1
   /\ lq' = <<>> /\ inv' = [a \in {} |-> 0] /\ nst' = EmptySt
+  \* (the watches armed for the dropped requests stay armed: the realtime half has a "remove-watch" port, but sending one per dropped
+  \* request is no repair - TLC shows the count going wrong when a dropped request's watch was already consumed by a controller whose
+  \* announcement is still in flight; WatchesMatchQueue below therefore holds in neither design once Clear is used)
   /\ toRT' = Append(toRT, BindMsg(EmptySt, FALSE))
   /\ truth' = [i \in {} |-> 0]
   /\ out' = <<>> /\ step' = [op |-> "clear"]
   /\ UNCHANGED <<rst, pend, watch, toNRT>>
 UseFreeId(id) ==       \* on receipt of "use-CC id": the oldest queued request gets the controller
-  IF lq = <<>> THEN UNCHANGED <<lq, inv, nst, toRT, truth>>
+  IF lq = <<>> THEN \* nobody waits any more (the queue was cleared while the announcement was in flight): the code stays silent and the
+                    \* controller remains "pending" for good; the repaired design answers with the storage it has, so that the entry is popped
+                    /\ toRT' = IF Fix THEN Append(toRT, BindMsg(nst, TRUE)) ELSE toRT
+                    /\ UNCHANGED <<lq, inv, nst, truth>>
   ELSE LET a == lq[1][1]  coarse == lq[1][2]
            fresh == ~ Has(inv, a)
            st0 == IF fresh THEN [map |-> nst.map, cbs |-> Append(nst.cbs, a), vals |-> Zero(Len(nst.vals) + 1)]
@@ -151,6 +157,11 @@ DrivesItsAddress == (Quiet /\ out # <<>>) => LET o == out[1] IN Has(truth, o.id)
 AssignedIsLive == Quiet => \A id \in DOMAIN truth : Lookup(rst, id).id # NONE /\ rst.cbs[Lookup(rst, id).s] = truth[id][1]
 OneMessage == Len(out) <= 1
 InRange == out # <<>> => out[1].x \in 0..(V * V - 1)
+\* "a not yet assigned controller arrives -> it is assigned to the oldest queued address" needs two things of the exchange: with no
+\* message in flight nothing is pending (a pending controller is never announced again, so a stuck entry makes it unlearnable for good),
+\* and the realtime half watches for exactly as many controllers as addresses are queued
+NoStuckController == Quiet => pend = <<>>
+WatchesMatchQueue == Quiet => watch = Len(lq)
 \* the pattern behind the known finding: a bind that does not answer a use-CC is delivered while a controller is pending
 NoStrayBind == ~ (step.op = "deliver_rt" /\ step.stray)
 =============================================================================
